@@ -62,6 +62,34 @@ CHECKS["C10"] = dict(
         "Calibration with corrupted records in every run.",
    technique="TLA+ exact integer/rational model + TLC exhaustive MC; spec->code table replay; code->spec trace validation (dyadic arithmetic)",
    ref="6 (C10)")
+CHECKS["C04"] = dict(
+   text="spec/Paraxial.tla states matrix optics on (y, n u) with mirrors as n' = -n and derives every accessor from the system matrix; MC_Paraxial "
+        "enumerates a grid of lenses exhaustively in exact 32-bit rationals (quick 1 756 lenses of 1-2 surfaces, thorough 43 728 of 1-3 surfaces; radii, "
+        "indices, mirrors, negative thickness behind mirrors, 8 aperture/field/object configurations) and checks det = n/n', the Lagrange invariant, "
+        "linearity and that perturbed records are rejected; the exactly computed accessor and ray values are replayed into the code (45 296 values, "
+        "1e-10 relative). Trace_Paraxial validates, for random float lenses and the bundled samples, the returned marginal/chief rays surface by "
+        "surface (cross-multiplied refraction/transfer), launch conditions, chief ray through the stop and field point, invariant constancy, "
+        "linearity and every accessor against auxiliary paraxial rays, in exact dyadic arithmetic, with calibration.",
+   technique="TLA+ matrix-optics model + TLC exhaustive MC in exact rationals; spec->code replay of exact expectations; code->spec trace validation (dyadic)",
+   ref="6 (C04), Appendix C")
+CHECKS["C08"] = dict(
+   text="spec/Seidel.tla states the classical surface contributions (S_I..S_V, C_I, C_II) and the library's documented transverse/longitudinal "
+        "conventions; MC_Seidel checks on an exact-rational grid of 660 lenses the identities, stop-shift invariance of the spherical, Petzval and "
+        "axial-colour sums and the stop-shift formulas for the others, and exports exact third_order() expectations that are replayed into the code "
+        "(10 236 values). Trace_Seidel validates recorded executions for random conic-free lenses, catalogue glasses and the spherical samples: all "
+        "per-surface terms, TCC = 3 CC, longitudinal = -transverse/u'_K, sums, accessor agreement, the AberrationOperand wrappers and the "
+        "small-aperture real-ray clause; calibration every run. The exact grid is bounded by TLC's 32-bit integers (stated in evidence).",
+   technique="TLA+ Seidel law module + TLC exhaustive MC in exact rationals; spec->code replay; code->spec trace validation (dyadic)",
+   ref="6 (C08)")
+CHECKS["C19"] = dict(
+   text="TLC model-checks the Lens machine with SaveLoad (dictionary and file) and ScaleSystem interleaved with the edit calls; simulated "
+        "behaviours containing save_load steps are replayed on the real Optic with exact state comparison after every call and re-validated by "
+        "Trace_Lens. Feature-rich random lenses (every geometry kind; ideal, catalogue, model-glass and mirror media; simple and Fresnel coatings; "
+        "BSDFs; apertures; vignetted fields; wavelength units; polarization settings; pickups; solves), before and after edit histories, are "
+        "saved/reloaded both ways and Trace_Reload judges each reload: identical projection, bit-identical ray records and paraxial values for the "
+        "same queries, dictionary round trip. Calibration with corrupted reload events.",
+   technique="TLA+ abstract machine (Lens) + TLC MC; behaviour replay; trace validation of save/reload events (bit-exact dyadic comparison)",
+   ref="6 (C19)")
 NOT_YET = "check not built yet in this session (see DESIGN.md section 6 for the plan)"
 def main():
     props = [json.loads(l)["id"] for l in open(os.path.join(HERE, "properties.jsonl"))]
